@@ -351,7 +351,7 @@ class Contract:
                  inline=(), inline_only=False, slice=None, class_attrs=None, writes=(), note="", shape_bound=4,
                  native=None, name=None, self_spec=None, max_shapes=60, crosscheck=True, refute=True, assumed=False,
                  native_call=None, cases_filter=None, gen=None, native_ok=True, compare_native=None, slice_note=None,
-                 not_decided=(), lemmas=None, ghost_after=None):
+                 not_decided=(), lemmas=None, ghost_after=None, finite=None, locate=None, curry=()):
         self.target = target
         self.props = list(props)
         self.params = dict(params or {})
@@ -382,6 +382,9 @@ class Contract:
         self.not_decided = list(not_decided)
         self.lemmas = dict(lemmas or {})
         self.ghost_after = dict(ghost_after or {})
+        self.finite = finite              # finite(registry) -> list of (id, ok, detail): exhaustive exact decision
+        self.curry = tuple(curry)         # parameters applied to the function value returned by a lambda-returning lambda
+        self.locate = locate              # locate(module) -> AST node (for code that is not a named function)
         self.name = name or target
         self.short = (name or target.split("::", 1)[1])
         REGISTRY[self.name] = self
@@ -452,7 +455,10 @@ class Contract:
         interp.loop_counter = 0
         import ast as _ast
         if isinstance(fnode, _ast.Lambda):
-            return interp.eval(fnode.body, env)
+            v = interp.eval(fnode.body, env)
+            if self.curry:
+                v = interp.call(v, [args[c] for c in self.curry], {}, fnode)
+            return v
         # defaults for parameters not given
         a = fnode.args
         params = [p.arg for p in a.posonlyargs + a.args]
